@@ -1583,6 +1583,15 @@ def run_isolation(repo, chk):
             same = isinstance(out_.get("R"), dict) and out_["R"].get("J") == nested["R"]["J"] and isinstance(out_["R"].get("sub"), dict) and list(out_["R"]["sub"].get("k", [])) == list(nested["R"]["sub"]["k"])
             ret_ok = (not shares) and same
             ret_text = "a table that %s" % ("shares no container with the argument" if ret_ok else "shares a container with the argument" if shares else "differs from the argument")
+            # the same through the in-memory include table: load_config("name", share_dict={"name": table})
+            if ret_ok and "share_dict" in lc.all_param_names():
+                nested2 = {"R": {"J": _sp2.Integer(1), "sub": {"k": [_sp2.Integer(1)]}}}
+                out2 = _Tr2(repo, hooks={"builtin.isinstance": _isinst, "allow_attr_store": True}, max_depth=4).call_fn(lc, ["resonances"], {"share_dict": {"resonances": nested2}})
+                if isinstance(out2, dict):
+                    shares2 = out2 is nested2 or out2.get("R") is nested2["R"] or (isinstance(out2.get("R"), dict) and out2["R"].get("sub") is nested2["R"]["sub"])
+                    if shares2:
+                        ret_ok = False
+                        ret_text = "the caller's own share_dict entry (for an include name found in share_dict)"
     except Exception as e_:   # not interpretable: the statement-level rule below decides
         chk.info("D-copy: load_config(dict) not interpreted (%s); decided on the return statement" % str(e_)[:80])
         ret_ok = None
@@ -1764,6 +1773,46 @@ def run_add_decay(repo, chk):
         chk.violation("D-once", fn.key, "duplicate", "after registering A->B+C three times (two equal objects and one with the daughters swapped) and A->B+D once the particle lists %s: a decay declared more than once - as in every exported cascade - multiplies the chains built from it" % (got,), file=PARF, line=fn.lineno)
 
 
+def run_normalised_reads(repo, chk):
+    """mass / width settings have documented aliases (m0, g0, m_min, g_max ...): add_particle_constraints rewrites them
+    into one table; what it then reads about mass and width comes from that table, not from the raw card entry"""
+    LOADER = "tf_pwa/config_loader/config_loader.py"
+    fn = repo.fn(LOADER + "::ConfigLoader.add_particle_constraints")
+    chk.rule("B-normal", "ConfigLoader.add_particle_constraints: after the alias rewrite (`<table>[prefix_map[p] + rest] = <raw entry>[name]`) every later read of a mass / width key (mass, width, mass_min, mass_max, width_min, width_max ...) goes to the rewritten table: a read from the raw card entry sees only the long spelling, so the alias form (m_min / g_max, or limits under `params:`) would get no range")
+    target = source = None
+    vals = set()
+    for n in walk_local(fn.node):
+        if isinstance(n, ast.Assign) and len(n.targets) == 1 and isinstance(n.targets[0], ast.Name) and n.targets[0].id == "prefix_map" and isinstance(n.value, ast.Dict):
+            vals = {const_value(v) for v in n.value.values if isinstance(const_value(v), str)}
+        if isinstance(n, ast.Assign) and len(n.targets) == 1 and isinstance(n.targets[0], ast.Subscript) and isinstance(n.targets[0].value, ast.Name) and isinstance(n.value, ast.Subscript) and isinstance(n.value.value, ast.Name) and isinstance(n.targets[0].slice, ast.Name):
+            if any(isinstance(x, ast.Name) and x.id == "prefix_map" for st in walk_local(fn.node) if isinstance(st, ast.Assign) and st.targets and isinstance(st.targets[0], ast.Name) and st.targets[0].id == n.targets[0].slice.id for x in ast.walk(st.value)):
+                target, source, rewrite_line = n.targets[0].value.id, n.value.value.id, n.lineno
+    if not vals or target is None:
+        raise AnalysisError("add_particle_constraints: the alias rewrite `<table>[prefix_map[..] + ..] = <entry>[name]` was not found")
+    stems = sorted({v.rstrip("_") for v in vals})
+    bad = []
+    n_reads = 0
+    for n in walk_local(fn.node):
+        if getattr(n, "lineno", 0) <= rewrite_line:
+            continue
+        key = cont = None
+        if isinstance(n, ast.Subscript) and isinstance(n.ctx, ast.Load) and isinstance(n.value, ast.Name):
+            key, cont = const_value(n.slice), n.value.id
+        elif isinstance(n, ast.Compare) and len(n.ops) == 1 and isinstance(n.ops[0], (ast.In, ast.NotIn)) and isinstance(n.comparators[0], ast.Name):
+            key, cont = const_value(n.left), n.comparators[0].id
+        elif isinstance(n, ast.Call) and isinstance(n.func, ast.Attribute) and n.func.attr == "get" and isinstance(n.func.value, ast.Name) and n.args:
+            key, cont = const_value(n.args[0]), n.func.value.id
+        if isinstance(key, str) and any(key == st_ or key.startswith(st_ + "_") for st_ in stems) and cont in (target, source):
+            n_reads += 1
+            if cont == source:
+                bad.append((key, n.lineno))
+    chk.oblige("B-normal", "add_particle_constraints: %d reads of mass / width keys after the alias rewrite, all from `%s` (raw entry: `%s`)" % (n_reads, target, source), not bad)
+    for key, line in bad[:2]:
+        chk.violation("B-normal", fn.key, "raw-read:%s" % key, "`%s` is looked up in the raw card entry `%s` (line %d) instead of the alias-normalised table `%s`: written with its documented alias (or under `params:`) the setting is not found, e.g. a floated mass loses its range (None, None)" % (key, source, line, target), file=LOADER, line=line)
+    if n_reads < 4:
+        raise AnalysisError("B-normal: only %d reads of mass / width keys found after the alias rewrite" % n_reads)
+
+
 def run(repo, chk, tier):
     from ..cacheown import check_persistent_state
 
@@ -1793,6 +1842,7 @@ def run(repo, chk, tier):
     run_empty_candidates(repo, chk)
     run_include_and_dedup(repo, chk)
     run_add_decay(repo, chk)
+    run_normalised_reads(repo, chk)
     from ..cacheown import check_cache_ownership
 
     # memoised chain/decay structure (ls lists, ids, sorted tables, swap maps) is shared between loads
